@@ -6,7 +6,7 @@ from ..models import resolve, stencil
 
 ID = "C01"
 NEEDS_SHIM = False
-BUDGET = {"quick": 2400, "thorough": 60000}
+BUDGET = {"quick": 2400, "thorough": 300000}
 MIN_EVALS = {"quick": 1500, "thorough": 30000}
 RULE = (
     "seeded random cases: grid layout (1-3 axes, any subset of the 5 positions containing center, 2-7 cells, "
